@@ -19,9 +19,21 @@
      exact_within ... ch rep  x is in rep IF AND ONLY IF it is shown and steps ... k x from a label of ch, k within the level;
      ch_files / ch_diff       the set changedTargets starts from (file consumers found by the package loop;
                               plus, in the before/after form, the targets diffGraphs marks);
-     walk, dist_is, bfs_pops, bfs_states, sorted_q   the breadth-first search of findRevdeps (see below). *)
+     walk, dist_is, bfs_pops, bfs_states, sorted_q   the breadth-first search of findRevdeps (see below).
+   Vocabulary for `plz query changes --since REV` end to end (Model/C24.v, Proof/C24_Since.v):
+     snapshot                 a revision as the query sees it: configuration hash and build graph;
+     repo, repo_of b0 s0 ops  a git repository (linear history of snapshots, branches, HEAD on a branch or detached)
+                              and the one that `git init`, a first commit and the operations ops produce;
+     resolve r x              the commit a revision argument (HEAD, HEAD~k, a branch, a commit) names;
+     since_query first fallback prog r since files level incsub
+                              one run of the exact-mode program prog (the statements of "query.changes" in
+                              src/please.go) with CurrentRevIdentifier running `first`, else `fallback`: what it
+                              prints and the repository it leaves behind;
+     gen_since_program        the program and the two git commands as gotrans reads them from the source;
+     state_changed sb sa a    target a of the newer revision is new, or its rule hash / tool paths differ, or the
+                              configuration hash of the two revisions differs;  cfg_differs sb sa. *)
 From Coq Require Import Sorted.
-From PlzV Require Import Base.Harness Model.C24 Proof.C24 Proof.C24_Gen Proof.C24_Level.
+From PlzV Require Import Base.Harness Model.C24 Proof.C24 Proof.C24_Gen Proof.C24_Level Proof.C24_Since.
 
 (* `plz query changes <files>`: nothing affected is missed *)
 Definition C24_files : Prop :=
@@ -221,3 +233,82 @@ Example C24_level_witnesses :
   /\ diff_changes false w_subrepo w_subrepo [s "third_party/sr.patch"] 2 false = Some [2%N]
   /\ diff_changes false w_subrepo w_subrepo [s "third_party/sr.patch"] 2 true = Some [2; 0; 1]%N.
 Proof. vm_compute. repeat split. Qed.
+
+(* ------------------------------------------------------------------------------------------------------------- *)
+(* `plz query changes --since REV --level N` in exact mode, end to end: the program that src/please.go runs (as
+   translated from the source), on ANY repository that git operations can produce and any REV that resolves, answers
+   and puts the work tree back where it was (same branch, or detached at the same commit); the answer misses no
+   target, within the level, whose full state - configuration hash included - differs between REV and HEAD, nor a
+   consumer of a changed file, nor anything that depends on one. *)
+Definition C24_since_statement : Prop :=
+  forall prog first fallback, gen_since_program = Some (prog, first, fallback) ->
+  forall b0 s0 ops since i files level incsub,
+    let r := repo_of b0 s0 ops in
+    resolve r since = Some i ->
+    exists j sb sa rep,
+      head_commit r = Some j /\ nth_error (commits r) i = Some sb /\ nth_error (commits r) j = Some sa
+      /\ since_query first fallback prog r since files level incsub = Some (rep, r)
+      /\ complete_within (sn_graph sa) incsub level (depends false (sn_graph sa))
+                         (base_diff (cfg_differs sb sa) (sn_graph sb) (sn_graph sa) files) rep.
+
+(* It fails exactly where the before/after form fails (the subrepo edge without --include_subrepos): every pair of
+   states is the pair of revisions of a two-commit repository. *)
+Theorem C24_since_refuted : ~ C24_since_statement.
+Proof. intros H. exact (since_full_claim_refuted (H since_flow cri_first cri_fallback (proj1 c24_since_source))). Qed.
+Print Assumptions C24_since_refuted.
+
+(* What holds for ALL histories of git operations (any number of commits and branches, HEAD on a branch or detached),
+   every revision argument that resolves, all file lists, levels and flags, for the program and the commands of the
+   source:
+   (1) the run answers, and leaves the repository exactly as it found it;
+   (2) the two states it compares are (configuration of REV, graph of REV) and (configuration of the original HEAD
+       commit, graph of that commit): every shown target whose full state differs is reported at every level, the
+       report is complete over the recorded edges with level -1 and EXACT within the level;
+   (3) outside the defect class it is complete within the level over the dependency edges. *)
+Definition C24_since_partial_statement : Prop :=
+  forall prog first fallback, gen_since_program = Some (prog, first, fallback) ->
+  forall b0 s0 ops since i files level incsub,
+    let r := repo_of b0 s0 ops in
+    resolve r since = Some i ->
+    exists j sb sa rep,
+      head_commit r = Some j /\ nth_error (commits r) i = Some sb /\ nth_error (commits r) j = Some sa
+      /\ since_query first fallback prog r since files level incsub = Some (rep, r)
+      /\ (forall a, In a (g_targets (sn_graph sa)) -> state_changed sb sa a ->
+                    shown (sn_graph sa) incsub (t_id a) = true -> In (t_id a) rep)
+      /\ complete (sn_graph sa) incsub level (code_dep (sn_graph sa) incsub)
+                  (base_diff (cfg_differs sb sa) (sn_graph sb) (sn_graph sa) files) rep
+      /\ exact_within (sn_graph sa) incsub level (code_dep (sn_graph sa) incsub)
+                      (ch_diff (cfg_differs sb sa) (sn_graph sb) (sn_graph sa) files) rep
+      /\ (defect_class false (sn_graph sa) incsub = None ->
+          complete_within (sn_graph sa) incsub level (depends false (sn_graph sa))
+                          (base_diff (cfg_differs sb sa) (sn_graph sb) (sn_graph sa) files) rep).
+
+Theorem C24_since_partial : C24_since_partial_statement.
+Proof. exact since_partial_gen. Qed.
+Print Assumptions C24_since_partial.
+
+(* Non-vacuity: a two-commit repository whose second commit only changes the configuration hash (everything is
+   reported), one whose second commit edits a definition and adds a target, queried from a DETACHED HEAD (both are
+   reported, HEAD stays detached at the same commit); the premises hold (the history is one of git operations, HEAD~1
+   resolves, the states differ).  The last two lines show that the theorem is about this program and these commands:
+   without the readConfig() after the first checkout nothing is reported for the configuration-only commit, and with
+   `git rev-parse --abbrev-ref HEAD` a detached HEAD is left on the old revision with an empty report. *)
+Example C24_since_nonvacuous :
+  gen_since_program = Some (since_flow, cri_first, cri_fallback)
+  /\ resolve (x_repo x_cfg_ops) (RHeadMinus 1) = Some 0%nat
+  /\ state_changed (mkSnap 7%N (x_g 1%N)) (mkSnap 8%N (x_g 1%N)) (x_t 1%N)
+  /\ since_query cri_first cri_fallback since_flow (x_repo x_cfg_ops) (RHeadMinus 1) [] (-1) false
+     = Some ([0%N], x_repo x_cfg_ops)
+  /\ hd (x_repo x_build_ops) = Detached 1
+  /\ since_query cri_first cri_fallback since_flow (x_repo x_build_ops) (RHeadMinus 1) [] (-1) false
+     = Some ([0%N; 1%N], x_repo x_build_ops)
+  /\ since_query cri_first cri_fallback
+       [SOriginal false; SChangedFiles; SCheckoutSince; SParseBefore; SCheckoutOriginal; SReadConfig; SParseAfter; SDiff]
+       (x_repo x_cfg_ops) (RHeadMinus 1) [] (-1) false = Some ([], x_repo x_cfg_ops)
+  /\ since_query GRevParseAbbrevRef cri_fallback since_flow (x_repo x_build_ops) (RHeadMinus 1) [] (-1) false
+     = Some ([], mkRepo (commits (x_repo x_build_ops)) (branches (x_repo x_build_ops)) (Detached 0)).
+Proof.
+  split; [exact (proj1 c24_since_source)|]. split; [reflexivity|].
+  split; [right; right; discriminate|].
+  repeat split; vm_compute; reflexivity.
+Qed.
